@@ -360,6 +360,21 @@ def _requests(ctx, obj):
     if d['type'] == 'FRACTIONAL':
         for dt in ('int8', 'bool', 'uint8', None):
             reqs.append(dict(base, segs=list(d['nums']), combine=False, rescale=False, dtype=dt))
+    if len(d['nums']) > 1:
+        # ascending prefixes (the request looks like 1..k although more is stored) and descending requests, each combined
+        # with and without relabel and stacked, with the overlap check on
+        nums = list(d['nums'])
+        shapes = [nums[:-1], nums[:1], nums[::-1], [nums[-1], nums[0]]]
+        for segs in shapes:
+            for combine, relabel in ((True, True), (True, False), (False, False)):
+                reqs.append(dict(base, segs=list(segs), combine=combine, relabel=relabel, skip=False,
+                                 entry=r.choice(entries), planes=None))
+        for q in reqs[-len(shapes) * 3:]:
+            if q['entry'] in ('instance', 'frame', 'div'):
+                q['planes'] = list(range(min(P, 3)))
+                if r.random() < 0.3:
+                    q['planes'].insert(r.randint(0, len(q['planes'])), 'absent')
+                    q['assert_missing'] = r.random() < 0.5
     return reqs
 
 
